@@ -857,6 +857,19 @@ impl GraphWorld {
                 }
             }
         }
+        // "changes are never lost" alone (C06), where the other direction is not judged
+        if armed("C06") && self.prog.missed_only() {
+            for (k, args) in out.runs.iter() {
+                if out.cone_end.contains(k) && !(runs.contains_key(k) || fold_steps.contains_key(k)) {
+                    vs.push(v("C06", "C06.missed", kind_of(k), format!("{k:?} ({}) was not re-invoked although an input produced a result its cutoff did not suppress (expected arguments {args:?})", kind_of(k))));
+                }
+            }
+            for (k, _, _) in out.bind_runs.iter() {
+                if out.cone_end.contains(k) && !bind_runs.contains_key(k) {
+                    vs.push(v("C06", "C06.missed", "Bind", format!("bind closure {k:?} did not re-run although its input changed")));
+                }
+            }
+        }
         // exact ran-set (C06)
         if armed("C06") && self.prog.exact_ran() {
             let exp_runs: BTreeMap<&Key, &Vec<Val>> = out.runs.iter().map(|(k, a)| (k, a)).collect();
